@@ -20,6 +20,7 @@ func CheckC04(run *evid.Run) {
 	parallel(nh, func(i int) {
 		o2 := opts
 		o2.Failures = i%2 == 1
+		o2.Bursts = i%3 == 0 // concurrent bursts before the (sequential) appends that are checked
 		if i%5 == 2 {
 			o2.Shapes = []string{"manyheads"}
 		}
@@ -45,6 +46,17 @@ func CheckC04(run *evid.Run) {
 				}
 				if s.Op == "fork" {
 					special[s.R] = "fork"
+				}
+				if s.Op == "burst" {
+					special[s.R] = "concurrent-burst"
+					run.Count("concurrent_bursts", 1)
+					// entries appended during the burst are checked against the final state of the burst
+					fin := hx.Observe(x.Logs[s.R])
+					for _, be := range res.Burst {
+						if _, ok := fin.Set[be.GetHash().String()]; !ok {
+							run.Violate("C04/not-in-log", det("after", "concurrent-burst"), wit(), "entry appended during a concurrent burst is not in the log")
+						}
+					}
 				}
 				continue
 			}
@@ -93,6 +105,10 @@ func CheckC04(run *evid.Run) {
 			}
 			if _, ok := after.Set[e.Hash]; !ok {
 				run.Violate("C04/not-in-log", d, wit(), "appended entry is not in the log (%s)", where)
+			}
+			// the appended entry dominates the log: everything the log holds is in its causal past
+			if dom := model.Past(after.Set, []string{e.Hash}); len(dom) != len(after.Set) {
+				run.Violate("C04/does-not-dominate", d, wit(), "after append %d of the log's %d entries are not in the causal past of the appended entry (%s)", len(after.Set)-len(dom), len(after.Set), where)
 			}
 			past := model.Past(before.Set, e.Next)
 			nx := map[string]bool{}
@@ -177,6 +193,7 @@ func CheckC05(run *evid.Run) {
 	parallel(nh, func(i int) {
 		o2 := opts
 		o2.Failures = i%2 == 1
+		o2.Bursts = i%3 == 0
 		h := hx.Gen(run.Seed, i, o2)
 		x := hx.NewExec(h)
 		shadow := map[string]string{}
@@ -197,6 +214,30 @@ func CheckC05(run *evid.Run) {
 				// the forked replica starts a new life; what it held before is not its past
 				prev[s.R] = nil
 				run.Count("forks", 1)
+			}
+			if s.Op == "burst" {
+				run.Count("concurrent_bursts", 1)
+				// whatever a concurrent reader saw in the linearised view during the burst must still be there
+				fin := hx.Observe(x.Logs[s.R])
+				in := map[string]bool{}
+				for _, v := range fin.Values {
+					in[v] = true
+				}
+				for hsh := range res.BurstSeen {
+					if !in[hsh] {
+						run.Violate("C05/values-lost", det("codec", h.Codec, "op", s.Op), wit(), "entry %s was visible in Values() of r%d during the concurrent burst and is gone afterwards (%s)", hx.Short(hsh), s.R, where)
+						break
+					}
+				}
+				for _, be := range res.Burst {
+					if !in[be.GetHash().String()] {
+						run.Violate("C05/values-lost", det("codec", h.Codec, "op", s.Op), wit(), "entry appended during the concurrent burst is missing from Values() of r%d afterwards (%s)", s.R, where)
+						break
+					}
+				}
+				if fin.Len != len(fin.Values) {
+					run.Violate("C05/values-lost", det("codec", h.Codec, "op", s.Op), wit(), "after the concurrent burst r%d holds %d entries but its linearised view has %d (%s)", s.R, fin.Len, len(fin.Values), where)
+				}
 			}
 			for r, l := range x.Logs {
 				o := hx.Observe(l)
